@@ -280,7 +280,10 @@ func c04GenMalformed(r *rand.Rand) string {
 var c04Hand = []string{"", "a", "a=", "a.", "a.b", "a.b=", ".a=1", "a.=1", "a[0]", "a[0].", "a[0]=", "a[0][0].", "a[0].d=", "a[1][0].d=", "a[0].d.e=", "a[2].b=", "a[", "a[x]=1", "a[-1]=1",
 	"a[300]=1", "a[65537]=1", "a=1,", "a=1,b", ",", "=", "=x", "a=,b=2", "a={", "a={x", "a={x}y", "a={x},b=1", "a={x}b=1", "a=\\", "a\\", "a[0]x=1",
 	"a[0]=1,a[2]=3", "a[1].b=1,a[1].c=2", "a[0][1]=x", "a.b.c.d.e.f.g.h.i.j.k.l.m.n.o.p.q.r.s.t.u.v.w.x.y.z.a.b.c.d.e=1",
-	"a.b.c.d.e.f.g.h.i.j.k.l.m.n.o.p.q.r.s.t.u.v.w.x.y.z.a.b.c.d=1", "a=1,a=2", "a.b=1,a=2", "a=2,a.b=1", "a=null", "a.b=null"}
+	"a.b.c.d.e.f.g.h.i.j.k.l.m.n.o.p.q.r.s.t.u.v.w.x.y.z.a.b.c.d=1", "a=1,a=2", "a.b=1,a=2", "a=2,a.b=1", "a=null", "a.b=null",
+	// the nesting bound also counts list items (C20's fix): 30 levels pass, 31 fail
+	"a[0][0][0][0][0][0][0][0][0][0][0][0][0][0][0][0][0][0][0][0][0][0][0][0][0][0][0][0][0][0][0]=1", "a[0][0][0][0][0][0][0][0][0][0][0][0][0][0][0][0][0][0][0][0][0][0][0][0][0][0][0][0][0][0][0][0]=1",
+	"a[0].a[0].a[0].a[0].a[0].a[0].a[0].a[0].a[0].a[0].a[0].a[0].a[0].a[0].a[0].a=1", "a[0].a[0].a[0].a[0].a[0].a[0].a[0].a[0].a[0].a[0].a[0].a[0].a[0].a[0].a[0].a.a=1"}
 
 func c04GenJSONExpr(r *rand.Rand, dest vtree) string {
 	vals := []string{`1`, `"s"`, `null`, `true`, `[1,2]`, `{"x":1}`, `{"x":{"y":null}}`, ` 2`, `"a,b"`, `[{"k":"v"}]`, ``, ` `, `1.5`, `"é"`, `-3`, `[]`, `{}`, `"t"`, `false`, `[null]`}
